@@ -15,7 +15,12 @@ objects and state classes, real `Settings` / `EventBus`) against scripted collab
 
 Opt-in knobs (defaults keep the behaviour every user of the rig had before): `Rig(..., teardown=n)` — a CANCELLED network
 step needs n more loop iterations to unwind (a real connection attempt closes its socket first); `rig.unshared` — remote
-paths the shares stub no longer finds (`find_shared_item`, `find_shared_item_cache`).
+paths the shares stub no longer finds (`find_shared_item`, `find_shared_item_cache`); `Rig(..., aux_gates=True)` — every
+OTHER peer message that names a transfer's file (PeerUploadFailed, PeerPlaceInQueueRequest, ...) is a gate as well
+(attempt id 'aux<n>': the connection for it is slow until the schedule lets it through or fails it, `rig.release_aux`);
+`Rig(..., share_delay=n)` — `find_shared_item` / `get_shared_item` take n loop iterations (the real ones ask the file
+system through the executor).  'connect' / 'frame' entries carry the name of the task that sent them as a 5th element
+and 'peer-conn' as a 6th when the message was written to the connection the peer's own message came in on (a reply).
 """
 from __future__ import annotations
 
@@ -43,6 +48,15 @@ def shared_file() -> str:
             f.write(b'x' * FILE_SIZE)
         os.replace(tmp, _tmp_path)
     return _tmp_path
+
+
+def _sender() -> Optional[str]:
+    """name of the task that is sending (None outside a task)"""
+    try:
+        t = asyncio.current_task()
+    except RuntimeError:
+        return None
+    return None if t is None else t.get_name()
 
 
 class Gate:
@@ -101,13 +115,19 @@ class StubShares:
     def __init__(self, rig):
         self.rig = rig
 
+    async def _delay(self):
+        for _ in range(self.rig.share_delay):
+            await asyncio.sleep(0)
+
     async def get_shared_item(self, remote_path, username=None):
+        await self._delay()
         return _Item(shared_file())
 
     async def get_filesize(self, item):
         return FILE_SIZE
 
     async def find_shared_item(self, remote_path, username=None):
+        await self._delay()
         if remote_path in self.rig.unshared:
             return None
         return _Item(shared_file())
@@ -186,9 +206,9 @@ class FakeConn:
             out = await rig.gate(k, att).wait('dreply')
             if out != 'ok':
                 raise ConnectionWriteError('scripted')
-            rig.log.append(('frame', k, att, cls))
+            rig.log.append(('frame', k, att, cls, _sender()))
             return
-        rig.log.append(('frame', k, None, cls))
+        rig.log.append(('frame', k, None, cls, _sender(), 'peer-conn'))
 
     async def receive_transfer_offset(self):
         from aioslsk.exceptions import ConnectionReadError
@@ -245,17 +265,24 @@ class StubNetwork:
             elif cls == 'PeerTransferQueue' and k is not None:
                 att = rig.begin_attempt(k, 'queue-remotely')
                 stage = 'send'
+            elif rig.aux_gates and k is not None:
+                # any other message about a transfer's file: the connection it needs is slow as well
+                att = rig.begin_aux(k, cls)
+                stage = 'send'
             else:
-                rig.log.append(('connect', k, None, cls))
-                rig.log.append(('frame', k, None, cls))
+                rig.log.append(('connect', k, None, cls, _sender()))
+                rig.log.append(('frame', k, None, cls, _sender()))
                 continue
-            rig.log.append(('connect', k, att, cls))
-            out = await rig.gate(k, att).wait(stage)
+            rig.log.append(('connect', k, att, cls, _sender()))
+            try:
+                out = await rig.gate(k, att).wait(stage)
+            finally:
+                rig.end_aux(k, att)
             if out == 'fail-conn':
                 raise PeerConnectionError('scripted')
             if out == 'fail-write':
                 raise ConnectionWriteError('scripted')
-            rig.log.append(('frame', k, att, cls))
+            rig.log.append(('frame', k, att, cls, _sender()))
 
     def create_peer_response_future(self, peer, message_class, fields=None):
         rig = self.rig
@@ -302,7 +329,7 @@ class StubNetwork:
 
 
 class Rig:
-    def __init__(self, loop, slots: int = 2, teardown: int = 0):
+    def __init__(self, loop, slots: int = 2, teardown: int = 0, aux_gates: bool = False, share_delay: int = 0):
         import logging
         logging.getLogger('aioslsk').setLevel(logging.CRITICAL)
         from aioslsk.settings import Settings
@@ -327,6 +354,10 @@ class Rig:
         self.attempt_ticket: dict = {}             # (k, att) -> ticket
         self.teardown = teardown                   # see Gate.teardown (0 = a cancelled step ends at once)
         self.unshared: set = set()                 # remote paths the shares stub no longer finds (opt-in, default none)
+        self.aux_gates = aux_gates                 # other messages naming a transfer's file are gates too (opt-in)
+        self.share_delay = share_delay             # loop iterations find_shared_item / get_shared_item take (opt-in)
+        self.aux_count: dict[int, int] = {}        # k -> number of aux messages begun
+        self.aux_pending: dict[int, list] = {}     # k -> [(att, cls)] aux messages whose connection is still pending
         # downloads are written below a per-process directory that every run starts (and ends) without
         self.download_dir = os.path.join(tempfile.gettempdir(), f'verif-xfer-dl-{os.getpid()}')
         self.cleanup()
@@ -359,6 +390,27 @@ class Rig:
             self.attempt_ticket[(k, att)] = ticket
         self.task_ctx[asyncio.current_task()] = (k, att)
         return att
+
+    def begin_aux(self, k, cls) -> str:
+        n = self.aux_count.get(k, 0) + 1
+        self.aux_count[k] = n
+        att = f'aux{n}'
+        self.aux_pending.setdefault(k, []).append((att, cls))
+        return att
+
+    def end_aux(self, k, att):
+        if isinstance(att, str):
+            self.aux_pending[k] = [x for x in self.aux_pending.get(k, []) if x[0] != att]
+
+    def release_aux(self, k, outcome: str = 'ok') -> Optional[str]:
+        """The connection needed by the oldest pending aux message of transfer k is established ('ok') or fails
+        ('fail-conn'); returns the message class or None when nothing is pending."""
+        pend = self.aux_pending.get(k) or []
+        if not pend:
+            return None
+        att, cls = pend[0]
+        self.gate(k, att).set('send', outcome)
+        return cls
 
     def cleanup(self):
         import shutil
@@ -394,7 +446,10 @@ class Rig:
 
     def log_frame_for_message(self, username, message, queued=False):
         cls = type(message).__qualname__.split('.')[0]
-        self.log.append(('frame', self.k_of_message(username, message), None, cls))
+        k = self.k_of_message(username, message)
+        if k is None and cls == 'PeerTransferReply':
+            k = self.dl_ticket.get(getattr(message, 'ticket', None))
+        self.log.append(('frame', k, None, cls, _sender(), 'peer-conn'))
 
     # -- TransferStateListener ------------------------------------------------------------------------
     async def on_transfer_state_changed(self, transfer, old, new):
